@@ -263,10 +263,10 @@ def run(tier='quick', seed=0, nproc=16):
   jobs = [('shape', s) for s in dags.shapes_upto(n, kinds='CLTD')]
   jobs += [('pool', name) for name, _ in pool.make_pool()]
   res = common.pmap(check_structure, gen.shuffled(jobs), nproc)
-  res.append(cycle_case())
-  res.append(special_cases())
-  res.append(temp_leaves_case())
-  res.append(late_registration_case())
+  res.append(common.guard(cycle_case))
+  res.append(common.guard(special_cases))
+  res.append(common.guard(temp_leaves_case))
+  res.append(common.guard(late_registration_case))
   return common.merge(
       res, 'layerb.prop_C08',
       rule='every DAG shape <= %d nodes over Config/list/tuple/dict + pool configurations '
